@@ -73,6 +73,11 @@ def gen_tasks(tier, seed, kind="lae"):
                                   "kwargs": {"k": kk, "weight_type": "int", "solution_weights_superset": [1, 2, 2], "path_length_ranges": [[0, 3], [4, 50]], "path_length_factors": [1, fac]}})
                     tasks.append({**base, "edges": arb, "plf": {"ranges": [[0, 3], [4, 50]], "factors": [fac, 1]},
                                   "kwargs": {"k": kk, "weight_type": "int", "path_length_ranges": [[0, 3], [4, 50]], "path_length_factors": [fac, 1]}})
+                # a factor well below 1 on every length, with one heavy and one empty edge on a route (slack above the largest weight)
+                hv = [(u, v, 4 if j % 2 == 0 else 0) for j, (u, v) in enumerate(es)]
+                for fac in (0.5, 0.25):
+                    tasks.append({**base, "edges": hv, "plf": {"ranges": [[0, 50]], "factors": [fac]},
+                                  "kwargs": {"k": kk, "weight_type": "int", "path_length_ranges": [[0, 50]], "path_length_factors": [fac]}})
                 tasks.append({**base, "edges": arb, "plf": {"ranges": [[0, 3], [4, 50]], "factors": [1, 2]},
                               "kwargs": {"k": kk, "weight_type": "int", "path_length_ranges": [[0, 3], [4, 50]], "path_length_factors": [1, 2]}})
     # one walk that must cross a cycle edge exactly W times, W a power of two and the largest weight (exact optimum 0):
